@@ -690,7 +690,8 @@ class IH5Group(IH5InnerNode):
 
     def copy(self, source: CopySource, dest: CopyDest, **kwargs):
         src_node = self[source] if isinstance(source, str) else source
-        name: str = kwargs.pop("name", src_node.name.split("/")[-1])
+        # (None is the default value of the keyword in h5py)
+        name: str = kwargs.pop("name", None) or src_node.name.split("/")[-1]
         dst_name: str
         if isinstance(dest, str):
             # if dest is a path, ignore inferred/passed name
